@@ -3,8 +3,12 @@
 (the same machinery as ./check, VERIF_REPO=<copy>) and writes /verif/seeded/RESULTS.md."""
 import json, os, re, shutil, subprocess, sys, concurrent.futures as cf
 V = '/verif'
-seeds = sorted(d for d in os.listdir(V + '/seeded') if os.path.isdir(V + '/seeded/' + d))
-if len(sys.argv) > 1: seeds = [s for s in seeds if s in sys.argv[1:]]
+allseeds = sorted(d for d in os.listdir(V + '/seeded') if os.path.isdir(V + '/seeded/' + d))
+# `seed_results.py` runs every seed; `seed_results.py <name|Cxx>...` re-runs only those (a bare property id selects all of
+# its seeds) and merges them into the results kept in seeded/results.json, from which RESULTS.md is rewritten.
+CACHE = V + '/seeded/results.json'
+sel = sys.argv[1:]
+seeds = [s for s in allseeds if not sel or s in sel or s.split('-')[0] in sel]
 def run(name):
     d = V + '/seeded/' + name
     meta = json.load(open(d + '/meta.json'))
@@ -20,7 +24,13 @@ def run(name):
     lines = [l.strip() for l in r.stdout.split('\n') if 'failed obligation' in l or l.startswith('UNDECIDED')]
     return name, prop, r.returncode, lines, meta
 with cf.ThreadPoolExecutor(4) as ex:
-    res = list(ex.map(run, seeds))
+    new = list(ex.map(run, seeds))
+cache = json.load(open(CACHE)) if os.path.exists(CACHE) and sel else {}
+for name, prop, rc, lines, meta in new:
+    cache[name] = [prop, rc, lines]
+cache = {k: v for k, v in cache.items() if k in allseeds}
+json.dump(cache, open(CACHE, 'w'), indent=0, sort_keys=True)
+res = [(n, cache[n][0], cache[n][1], cache[n][2], json.load(open(V + '/seeded/' + n + '/meta.json'))) for n in allseeds if n in cache]
 out = ['# Seeded changes vs registered checks', '',
        'exit 1 = VIOLATION reported (caught); 0 = not caught; 2 = undecided (not caught). Regenerate: `python3 lib/seed_results.py`.', '',
        '| seed | property | what the change does (needs) | check exit | failing obligations / reason |', '|---|---|---|---|---|']
